@@ -63,7 +63,31 @@ C18 = {
     "assumptions": ASSUME_COMMON + ["the scalar-value sequence logged next to each string is s.chars() (mechanical encoding by the harness)"],
 }
 
+C05 = {
+    "sub": "scalar",
+    "mc": {
+        "quick": [{"module": "MC_scalar", "cfg": "MC_scalar.cfg", "workers": 8}],
+        "thorough": [{"module": "MC_scalar", "cfg": "MC_scalar.cfg", "workers": 8}],
+    },
+    "replay_args": ["replay"],
+    "random_args": {"quick": [["sweep", "-70000", "70000"], ["random", "200"]],
+                    "thorough": [["sweep", "-70000", "70000"], ["sweep", "2147400000", "2147500000"], ["sweep", "-2147500000", "-2147400000"], ["random", "20000"]]},
+    "trace": ("Trace_scalar", "Trace_scalar.cfg"),
+    "shards": {"quick": 12, "thorough": 14},
+    "nontrivial": lambda ev: repr(ev["inp"]),
+    "rule": "one run per (target, value) point or per run-length-encoded stretch of the integer sweep: TLC enumerates 30 targets x "
+            "{0, 2^k-1, 2^k, 2^k+1 : k <= 64} in both integer forms (incl. non-negative NegativeInteger) x every other kind (17 400 points) "
+            "and checks Outcome against independently worded facts; every point is replayed through the real impls via both value sources; "
+            "every integer in [-70000, 70000] for every target, form and source is swept in Rust and validated by TLC per stretch (for all x in from..to); "
+            "seeded random u64/i64/f64/strings and f32 double-rounding witnesses; distinct = distinct (target, value / stretch) inputs",
+    "assumptions": ASSUME_COMMON + [
+        "IEEE rounding of integer/float payloads into f32/f64 is decided by a harness-side oracle (correctly rounded str::parse of the exact decimal expansion), not by TLA+",
+        "usize/isize are 64-bit on the platform running the check",
+        "the harness extracts signed digit runs and the words 'zero'/'empty' from Unexpected messages mechanically"],
+}
+
 CHECKS = {
+    "C05": (lambda pid, tier: helpers.run(pid, tier, C05), lambda pid, path: helpers.replay(pid, C05, path)),
     "C18": (lambda pid, tier: helpers.run(pid, tier, C18), lambda pid, path: helpers.replay(pid, C18, path)),
     "C17": (lambda pid, tier: helpers.run(pid, tier, C17), lambda pid, path: helpers.replay(pid, C17, path)),
     "C19": (lambda pid, tier: helpers.run(pid, tier, C19), lambda pid, path: helpers.replay(pid, C19, path)),
